@@ -302,7 +302,9 @@ func (C03) Run(tp *tape.Tape) core.Result {
 					"md = deep(200)",
 					"for ma <- fromto(0, 2) {\nfor mb <- fromto(0, 2) {\nmc = ma * mb\n}\n}",
 					"me = 0\nfor ma <- fromto(0, 3) {\nme = me + deep(ma)\n}",
-				}[tp.Draw(5)]
+					// a second closure from the same maker, used first
+					strings.Replace(pr.lines[0], "t = ", "mq = ", 1) + "\nmr = toa(mq(3))\nms = toa(mq(4))",
+				}[tp.Draw(6)]
 				n := newName()
 				if _, stop := submit(n+" = () -> "+gen.Block([]string{pr.lines[0], mid, pr.lines[1], "r"}), 0); stop {
 					goto done
